@@ -5,7 +5,7 @@ Pt(k) == <<(k % 6) + 1, ((2 * k + 3) % 6) + 1>>
 Path(base, n) == [q \in 1..n |-> Pt(base + q)]
 Closed(base, n) == Append(Path(base, n), Pt(base + 1))
 Geoms == [Point |-> {G("Point", Pt(1)), G("Point", Pt(4))},
-          MultiPoint |-> {G("MultiPoint", Path(0, 1)), G("MultiPoint", Path(2, 3))},
+          MultiPoint |-> {G("MultiPoint", Path(0, 1)), G("MultiPoint", <<>>)},            \* (a geometry without points is a record like any other)
           LineString |-> {G("LineString", Path(0, 2)), G("LineString", Path(1, 4))},
           MultiLineString |-> {G("MultiLineString", <<Path(0, 2)>>), G("MultiLineString", <<Path(0, 2), Path(2, 3)>>),
                               G("MultiLineString", <<Path(1, 1), Path(2, 2), Path(4, 4)>>)},
